@@ -675,6 +675,8 @@ class BlockDownloadStream(io.RawIOBase):
         self._last_bytes_sent = 0
         self._current_block = []
         self._retransmitting = False
+        #: Less than one segment of data, written but not yet sent
+        self._partial = b""
         command = REQUEST_BLOCK_DOWNLOAD | INITIATE_BLOCK_TRANSFER
         if request_crc_support:
             command |= CRC_SUPPORTED
@@ -719,17 +721,22 @@ class BlockDownloadStream(io.RawIOBase):
         """
         if self._done:
             raise RuntimeError("All expected data has already been transmitted")
-        # Can send up to 7 bytes at a time
-        data = bytes(b[0:7])
+        # Can send up to 7 bytes at a time, starting with what an earlier
+        # call had to leave over
+        taken = len(bytes(b[0:7 - len(self._partial)]))
+        data = self._partial + bytes(b[0:taken])
         if self.size is not None and self.pos + len(data) >= self.size:
             # This is the last data to be transmitted based on expected size
+            self._partial = b""
             self.send(data, end=True)
         elif len(data) < 7:
-            # We can't send less than 7 bytes in the middle of a transmission
-            return None
+            # We can't send less than 7 bytes in the middle of a transmission,
+            # keep them until the rest of the segment is written
+            self._partial = data
         else:
+            self._partial = b""
             self.send(data)
-        return len(data)
+        return taken
 
     def send(self, b, end=False):
         """Send up to 7 bytes of data.
